@@ -133,7 +133,7 @@ func c15Run(c c15Case) []mc.Finding {
 	if c.ClusterParent {
 		pk, pns = kit.CThing, ""
 	}
-	w := newDWorld(dcOpt{parents: []*sim.Kind{pk}, attachments: []*sim.Kind{kit.Leaf}, customize: true, finalize: true}, true)
+	w := newDWorld(dcOpt{parents: []*sim.Kind{pk, kit.NoThing}, attachments: []*sim.Kind{kit.Leaf}, customize: true, finalize: true}, true) // (a second resource rule whose kind has no objects at all)
 	parent := kit.Obj(pk, pns, "p")
 	kit.Field(parent, "puid", "metadata", "uid")
 	w.Sim.Seed(parent)
